@@ -453,6 +453,15 @@ theorem C10_pas_reported {π τ γ : Type} (ip op : Bool) (ps : List π) (idp : 
   synthesize_spec ip op ps idp mkTarget inner score l c h
 
 open BqVerif.Pas in
+/-- the selection loop keeps the FIRST candidate of least score: every candidate before the selected
+    one scores strictly worse, none scores better (so which mappings are reported is determined) -/
+theorem C10_pas_select_first {α : Type} (score : α → Nat) (c : α) (rest : List α) :
+    (∃ pre post, c :: rest = pre ++ selectLoop score c rest :: post
+      ∧ ∀ x ∈ pre, score (selectLoop score c rest) < score x)
+    ∧ ∀ x ∈ c :: rest, score (selectLoop score c rest) ≤ score x :=
+  ⟨selectLoop_first score rest c, selectLoop_le score rest c⟩
+
+open BqVerif.Pas in
 /-- the enumeration of the targets follows the enumeration of the labels, for every branch -/
 theorem C10_pas_aligned {π : Type} (ip op : Bool) (ps : List π) (idp : π) :
     targetPairs ip op ps idp = labels ip op ps idp := aligned ip op ps idp
